@@ -34,10 +34,20 @@ def validOrder (g : Graph) (p : List (Key × Nat)) : Bool :=
 /-- priority given to the `j`-th stripped non-task leaf (`j = n_removed_leaves` at that moment) -/
 def stripPrio (expectedLen j : Nat) : Nat := expectedLen - 1 - j
 
-/-- the frame: stripped leaves (in strip order) get `stripPrio`, the core numbers the remaining keys `0, 1, …`
-    in the order it emits them -/
+/-- stripped leaves, in strip order, get `stripPrio expectedLen j` with `j = n_removed_leaves` counting up -/
+def stripAssign (expectedLen : Nat) : Nat → List Key → List (Key × Nat)
+  | _, [] => []
+  | j, k :: ks => (k, stripPrio expectedLen j) :: stripAssign expectedLen (j + 1) ks
+
+/-- the core numbers the keys it emits `i, i+1, …` (the counter of `add_to_result`) -/
+def coreAssign : Nat → List Key → List (Key × Nat)
+  | _, [] => []
+  | i, k :: ks => (k, i) :: coreAssign (i + 1) ks
+
+/-- the frame: what `order` returns when the normalisation loop stripped `stripped` (in that order) and the core
+    emitted the remaining internal keys in the order `core` -/
 def framePrios (expectedLen : Nat) (stripped core : List Key) : List (Key × Nat) :=
-  (stripped.zipIdx.map fun (k, j) => (k, stripPrio expectedLen j)) ++ core.zipIdx
+  stripAssign expectedLen 0 stripped ++ coreAssign 0 core
 
 /-! ### the normalisation loop of `order` (`while not all_tasks:`): stripping non-task leaves and shared data roots
 
